@@ -240,7 +240,7 @@ PARTNERS = _partners(1, 36)
 PARTNERS_HI = _partners(37, 66)            # radial orders 8..10
 
 def _generate(rng, tier):
-    n = {'quick': 26, 'thorough': 460, 'search': 100}[tier]
+    n = {'quick': 26, 'thorough': 400, 'search': 100}[tier]
     kinds = ['circle', 'hexagon', 'segmented', 'offcentre', 'irregular']
     out = []
     ptr = int(rng.integers(0, len(PARTNERS)))
